@@ -820,6 +820,7 @@ point_group_aliases = {
     "222": ["22"],
     "422": ["42"],
     "432": ["43"],
+    "622": ["62"],
     "m-3m": ["m3m"],
 }
 
